@@ -66,6 +66,10 @@ func c10Check(r *ev.Run, alphabet []streamFrame, stats map[string]int64) func(ru
 			rejected[i] = alphabet[sc.Frames[i]].Rejected
 		}
 		failing := sc.FailAfter >= 0 || sc.ShutAt >= 0
+		if run.gotOther > 0 {
+			bad("delivered-on-another-connection", fmt.Sprintf("%d message(s) arrived at the consumer of a second stream whose connection carried nothing", run.gotOther))
+			return
+		}
 		// (1) every delivered value is a non-nil message re-encoding to one of the complete frames, each at most once
 		used := make([]bool, len(run.frames))
 		order := ""
@@ -283,6 +287,25 @@ func c10Scenarios(thorough bool, alphabet []streamFrame, heavy func(fam string) 
 			}
 		}
 	}
+	// reads that return no bytes and no error, before every chunk: one read per frame, one read for
+	// all, and a cut inside every frame's length prefix
+	for _, seq := range seqs {
+		n := size(seq)
+		var perFrame, inPrefix []int
+		o := 0
+		for _, f := range seq {
+			if o+2 < n {
+				inPrefix = append(inPrefix, o+2)
+			}
+			o += len(alphabet[f].B)
+			if o < n {
+				perFrame = append(perFrame, o)
+			}
+		}
+		add("S-A empty reads", streamScenario{Frames: seq, Cuts: perFrame, ZeroReads: true, FailAfter: -1, Bound: 0, ShutAt: -1})
+		add("S-A empty reads", streamScenario{Frames: seq, ZeroReads: true, FailAfter: -1, Bound: 0, ShutAt: -1})
+		add("S-A empty reads", streamScenario{Frames: seq, Cuts: inPrefix, ZeroReads: true, FailAfter: -1, Bound: 0, ShutAt: -1})
+	}
 	// byte-at-a-time delivery of every sequence
 	for _, seq := range seqs {
 		n := size(seq)
@@ -333,6 +356,9 @@ func c10Scenarios(thorough bool, alphabet []streamFrame, heavy func(fam string) 
 			perFrame = append(perFrame, o)
 		}
 		add("S-B all interleavings", streamScenario{Frames: seq, Cuts: perFrame, FailAfter: -1, Bound: -1, ShutAt: -1}) // one read per frame
+		if len(seq) <= 2 {
+			add("S-B all interleavings", streamScenario{Frames: seq, Cuts: perFrame, ZeroReads: true, FailAfter: -1, Bound: -1, ShutAt: -1})
+		}
 		add("S-B all interleavings", streamScenario{Frames: seq, FailAfter: -1, Bound: -1, ShutAt: -1})                 // all in one read
 		if len(seq) >= 2 {
 			c := len(alphabet[seq[0]].B) + 3 // inside the second frame's length prefix
@@ -423,6 +449,21 @@ func c10Scenarios(thorough bool, alphabet []streamFrame, heavy func(fam string) 
 			}
 			add("S-B all interleavings", streamScenario{Frames: seq, Cuts: perFrame, FailAfter: -1, Bound: -1, ShutAt: -1})
 			add("S-B all interleavings", streamScenario{Frames: seq, FailAfter: -1, Bound: -1, ShutAt: -1})
+		}
+	}
+	// two streams in one process: frames arrive on one connection only; with one read per frame and
+	// with all in one read, every single departure from the default schedule, under the policies that
+	// keep the first stream's parsers busy
+	for _, seq := range [][]int{{0}, {0, 1}, {3, 0, 1}, {0, 1, 2, 3, 0, 1, 2, 3}} {
+		var perFrame []int
+		o := 0
+		for _, f := range seq[:len(seq)-1] {
+			o += len(alphabet[f].B)
+			perFrame = append(perFrame, o)
+		}
+		for _, pol := range []string{"reader-first", "consumer-last", "parsers-first"} {
+			add("S-E two streams in one process", streamScenario{Frames: seq, Cuts: perFrame, TwoStreams: true, FailAfter: -1, Bound: 1, Devs: true, Policy: pol, ShutAt: -1})
+			add("S-E two streams in one process", streamScenario{Frames: seq, TwoStreams: true, FailAfter: -1, Bound: 1, Devs: true, Policy: pol, ShutAt: -1})
 		}
 	}
 	// ---- S-D: failure after every byte count, all interleavings; local shutdown
